@@ -161,3 +161,45 @@ def is_transport_timeout(exc):
     text = repr(exc)
     return isinstance(exc, (requests.exceptions.Timeout, requests.exceptions.ConnectionError)) \
         or "ReadTimeout" in text or "ConnectTimeout" in text or "ConnectionError" in text
+
+
+class FakeEndpoint:
+    """Socket-free 'server': dclab's session cache hands out a FakeSession for the fake host and
+    the URL availability probe of the HTTP basin is answered from the same resource table.
+    Only the transport is replaced; HTTPFile, RTDC_HTTP and the basin logic run unchanged."""
+    _n = 0
+
+    def __init__(self):
+        from dclab import http_utils
+        from dclab.rtdc_dataset import fmt_http
+        FakeEndpoint._n += 1
+        self.netloc = f"fake-{FakeEndpoint._n}.invalid:80"
+        self.resources = {}
+        self.session = FakeSession(self.resources)
+        self._http_utils, self._fmt_http = http_utils, fmt_http
+        http_utils.session_cache.sessions[self.netloc] = self.session
+        self._orig_avail = fmt_http.is_url_available
+        ep = self
+
+        def is_url_available(url, ret_reason=False):
+            if url in ep.resources:
+                return (True, "none") if ret_reason else True
+            if ep.netloc in str(url):
+                return (False, "not found") if ret_reason else False
+            return ep._orig_avail(url, ret_reason=ret_reason)
+        fmt_http.is_url_available = is_url_available
+
+    def put(self, path, blob):
+        if not path.startswith("/"):
+            path = "/" + path
+        url = f"http://{self.netloc}{path}"
+        self.resources[url] = blob
+        return url
+
+    @property
+    def requests(self):
+        return self.session.requests
+
+    def close(self):
+        self._fmt_http.is_url_available = self._orig_avail
+        self._http_utils.session_cache.sessions.pop(self.netloc, None)
